@@ -8,6 +8,95 @@ VERIF = os.path.dirname(os.path.dirname(os.path.abspath(__file__)))
 
 # property -> (technique, level text, level note, design ref)
 CLAIMED = {
+    "C02": (
+        "TLC model checking of Chunks.tla (chunk arithmetic, sending-loop model with bug switch) + TLC-generated "
+        "boundary classes published through the real API + TLC trace validation of every client frame at the broker",
+        "TLC proves for all L in 0..3P+1, P in 1..5 (thorough 40) that the chunk lengths sum to L, lie in 1..P, are "
+        "absent for L=0 and only the last is short, that the implementation-shaped loop produces them and that the "
+        "historical >= loop does not. The code is bound by publishing, via Channel::basic_publish and "
+        "Exchange::publish on connections with negotiated frame_max 4096/4097/8192/131072/2^32-1, every generated "
+        "class L=k*P+r x flags x property set plus random lengths (thorough up to 1 MiB, ~57 000 publishes), on four "
+        "channels, two threads, with stalled transport so publishes queue up; TLC compares each decoded frame with "
+        "Chunks!FrameAt (method fields, header size/properties, chunk sizes, frame_max, contiguity, order, "
+        "completeness).",
+        "Trusted: TLC, mock transport/broker and its amq-protocol decoder, Debug rendering for property equality, "
+        "Basic.Qos as barrier. Body bytes are compared with the input at the broker end and recorded as content_ok "
+        "(TLC checks sizes and, for single-frame bodies, the hash). frame_max >= 2^31 is treated as unlimited.",
+        "DESIGN.md §4 C02"),
+    "C06": (
+        "TLC model checking of FrameBuf.tla (read loop step by step; invariants Deterministic/Prompt/Errors/Stop, three "
+        "bug-switch counterexamples); TLC-generated graph-walk cases plus exhaustive 1- and 2-cut enumerations run on the "
+        "real FrameBuffer through a scripted io::Read; TLC trace validation (FrameBufTrace.tla) of every read_from call",
+        "TLC checks, for every stream of <=3 frames (sizes {3,9}; thorough {3,4,5,9}) with at most one unparseable frame "
+        "at every index, every release schedule of the transport (every segmentation, would-block and end-of-stream "
+        "position) that the hand-over is exactly the frames wholly contained in the consumed bytes, complete at every "
+        "return, with MalformedFrame/UnexpectedSocketClose exactly when due and nothing handed on afterwards; each of "
+        "three faulty loops breaks the invariant named after it. The code is bound by running the real "
+        "frame_buffer::FrameBuffer on streams of real method/header/body/heartbeat frames (8..14006 bytes): all single "
+        "cuts and all pairs of cuts of 4 (thorough 10) small streams, EOF and I/O error at every offset, an unparseable "
+        "frame of four kinds at every index, cut classes around frames larger than the 4096 read quantum, random "
+        "multi-cuts with random read sizes and the TLC graph-walk cases; TLC recomputes the expected hand-over of every "
+        "call from the logged sizes/offsets (83 081 scenarios quick, 1 400 308 thorough).",
+        "Trusted: TLC, the JSON trace encoding, the scripted reader's own byte accounting. Frames are identified by a "
+        "channel number and fingerprint carried in the frame. Handler errors are out of scope; for I/O errors other than "
+        "would-block only hand-over and 'not MalformedFrame/no panic' are checked. The end-to-end same-reaction "
+        "comparison through the whole client is exercised by C03's read segmentations, not here. Sizes >= 2^24 are "
+        "not injected.",
+        "DESIGN.md §4 C06"),
+    "C12": (
+        "TLC-checked operation table ApiMap.tla (67 public entry points -> AMQP method record; sanity invariants + "
+        "corrupted-row counterexamples); TLC-generated cases (operation x Boolean options x exchange type kind, "
+        "role-distinct tokens) run on the real API over the mock transport; TLC trace validation of every call "
+        "against the table",
+        "TLC checks the table for all 233 (operation, option combination) cases: every operation has a row, nowait "
+        "is TRUE exactly in the _nowait variants, passive exactly in the _passive variants, ticket 0, source/"
+        "destination roles follow the method name, every named argument lands in the like-named field; four "
+        "deliberately corrupted rows are shown to break these conditions. The code is bound by calling, for every "
+        "generated case and 5 (thorough 35) concretisations of the tokens (empty/255-byte/UTF-8 strings, nested "
+        "tables with every AMQP field type, 0/1/max numbers, channels 1/7/300), the real public API on a real "
+        "Connection; TLC recomputes the expected method from the logged arguments and compares it field by field "
+        "with the frame decoded from the raw bytes, requires exactly one method frame (publish: method+header+"
+        "bodies) on the call's channel, and requires ack/nack/reject through a channel with another id (every "
+        "ordered channel pair, via Delivery, Get and Consumer) to panic on the calling thread with nothing written.",
+        "Trusted: TLC, mock transport, the driver's own raw-byte method decoder (amq-protocol 1.4.0's parser drops "
+        "the hyphenated flags) and amq-protocol only for the value encoding inside argument tables. Argument values "
+        "are sampled; rows and Boolean combinations are exhaustive. A barrier qos(0,0,false) after every call makes "
+        "'nothing else was sent' observable (relies on per-channel FIFO, C01). Free fields: reply code/text of "
+        "Channel::close, settings sent with passive=true. Hang limit 5 s / 20 s per call.",
+        "DESIGN.md §4 C12"),
+    "C15": (
+        "TLC evaluation of Tune.tla on all 82 944 rank combinations with algebraic sanity invariants (+ bug-switch "
+        "counterexample); TLC-generated rank combinations run through make_tune_ok (hook) and real handshakes; TLC "
+        "trace validation against Tune.tla",
+        "TLC checks the negotiation operators (0 = unlimited, lower side wins, heartbeat plain minimum, frame_max < 4096 "
+        "-> FrameMaxTooSmall) on every combination of order-preserving value ranks and shows the invariants fail if 0 "
+        "is treated as a number. The code is bound by running every rank combination, concretised with interval end "
+        "points and random interior values, through ConnectionOptions::make_tune_ok, and ~150 (thorough 1500) real "
+        "handshakes on the mock transport whose TuneOk (or FrameMaxTooSmall with no TuneOk on the wire) is compared by "
+        "TLC with Tune.tla, followed by open_channel(Some(channel_max)) / Some(channel_max+1) / None and a "
+        "3*(frame_max-8)+1 byte publish whose frames TLC checks against the announced limits.",
+        "Trusted: TLC, mock transport/broker, per-record dense-rank encoding of u32 values (consistency asserted by "
+        "TLC), 5 s (20 s) hang limit. Heartbeat timing is C17's. End-to-end cases are a stratified sample of the rank "
+        "combinations; a TuneOk frame_max >= 2^31 cannot bind any frame a trace can hold.",
+        "DESIGN.md §4 C15"),
+    "C19": (
+        "TLC enumeration of Url.tla (parameter/error table over all abstract URL tuples, sanity invariants, "
+        "implementation-shaped decode model + bug-switch counterexamples); TLC-generated tuples concretised into real "
+        "URLs and run through the crate's URL handling (decode hook) and Connection::insecure_open over loopback TCP; "
+        "TLC trace validation against Url!Expect",
+        "TLC checks for every abstract URL (scheme x userinfo form x host x port x path x query of <=2 (thorough 3) "
+        "items x entry point; 81 900 / 738 000 tuples) that the expectation table is total, ok iff no defect, defaults, "
+        "later-wins, EXTERNAL-beats-credentials, every defect admissible, InsecureUrl for amqp on the secure-only entry, "
+        "and that a sequential first-error-wins model of amqp_url::open conforms (two faulty orders break it). The code "
+        "is bound by concretising EVERY generated tuple (values needing percent-encoding incl. unicode, four encoder "
+        "modes, numeric extremes, repeated/unknown parameters) through amiquip::verif::decode_url, and 48 (320) URLs "
+        "through the real Connection::insecure_open against a scripted TCP server (StartOk mechanism/response, "
+        "Open.virtual_host, TuneOk); every decoded field, error and server-side value is compared by TLC.",
+        "Trusted: TLC, the decode hook (same three calls as amqp_url::open), the driver's encoder/value pools. "
+        "Connection::open* do not exist without TLS: the amqp=>InsecureUrl gate is applied in the trace spec to the "
+        "decoded secure flag; amqps only up to option decoding. Strings are sampled from pools, not modelled per "
+        "character; 'user:@' and path '/' accept both readings.",
+        "DESIGN.md §4 C19"),
     "C10": (
         "TLC refinement check SlotsImpl.tla => Slots.tla (+ bug-switch counterexamples); TLC-generated graph-walk "
         "cases replayed on the real ChannelSlots and end to end; TLC trace validation against Slots.tla",
